@@ -785,6 +785,12 @@ def oracle_sched(case, obs):
     if th['kind'] == 'pool':
       for o in th['ops']:
         drivers[o['p']].add(t)
+  acquirers = [set() for _ in range(npools)]        # threads that may acquire for a pool
+  for t, th in enumerate(ths):
+    if th['kind'] == 'pool':
+      for o in th['ops']:
+        if o['op'] in ('acquire_all',) + tuple(lo.COMPOSITE_OPS) or (o['op'] == 'next_idle' and o['acq']):
+          acquirers[o['p']].add(t)
   last_step = {}                                     # (tid, op index) -> index of its last executed step
   first_step = {}
   for k, (tid, _, oi) in enumerate(steps):
@@ -846,17 +852,19 @@ def oracle_sched(case, obs):
         for w in res:
           if b['owners'][w] != [p]:
             return f'{where}: _acquire_all of pool {p} returned worker {w} but its owners are {b["owners"][w]}'
-      if op['op'] == 'release_all' and not op['ws'] and drivers[p] == {tid}:
+      # (round 6) the exit clauses also apply to a pool that other threads drive too, as long as those never acquire for it
+      sole_acq = acquirers[p] <= {tid}
+      if op['op'] == 'release_all' and not op['ws'] and sole_acq:
         held = [w for w in range(nw) if p in b['owners'][w]]
         if held:
           return f'{where}: release_all() of pool {p} returned and the pool still owns workers {held}'
-      if op['op'] in lo.COMPOSITE_OPS and drivers[p] == {tid}:
+      if op['op'] in lo.COMPOSITE_OPS and sole_acq:
         # "when a pool-level operation returns or raises, none of its workers remains acquired"
         held = [w for w in range(nw) if p in b['owners'][w]]
         before = [w for w in range(nw) if p in span[0]['owners'][w]]
         if op['op'] == 'run' and str(res).startswith('err:ValueError:Failed to connect'):
           # run() on a pool without a live worker fails in wait_until_alive() before its try block: it did not start
-          if held != before:
+          if held != before and drivers[p] == {tid}:
             return f'{where}: run() that could not start (no live worker) changed what pool {p} owns: {before} -> {held}'
         elif held:
           return f'{where}: {op["op"]}() of pool {p} ended with {res!r} and the pool still owns workers {held}'
